@@ -1945,15 +1945,24 @@ class AstEval:
         func = await self.aeval(arg.func)
         args = await self.eval_elt_list(arg.args)
         kwargs = {}
-        for kw_arg in arg.keywords:
-            if kw_arg.arg is None:
-                new_kwargs = dict(await self.aeval(kw_arg.value))
-            else:
-                new_kwargs = {kw_arg.arg: await self.aeval(kw_arg.value)}
+
+        def kwargs_merge(new_kwargs):
             for key in new_kwargs:
                 if key in kwargs:
                     raise TypeError(f"got multiple values for keyword argument '{key}'")
             kwargs.update(new_kwargs)
+
+        # like python, consecutive explicit keywords are all evaluated before they are merged with
+        # the keywords collected so far; a ** mapping is merged as soon as it has been evaluated
+        explicit_kwargs = {}
+        for kw_arg in arg.keywords:
+            if kw_arg.arg is None:
+                kwargs_merge(explicit_kwargs)
+                explicit_kwargs = {}
+                kwargs_merge(dict(await self.aeval(kw_arg.value)))
+            else:
+                explicit_kwargs[kw_arg.arg] = await self.aeval(kw_arg.value)
+        kwargs_merge(explicit_kwargs)
         #
         # try to deduce function name, although this only works in simple cases
         #
